@@ -595,11 +595,34 @@ class Interp:
             o = ObjStub("class " + ci.name, {r: "registry:%s.%s" % (ci.name, r) for c in self.p.mro(ci) for r in c.registries})
             o.cls = ci
             return o
-        if node.id in ("abs", "len", "range", "min", "max", "float", "int", "enumerate", "zip", "round", "list", "slice", "getattr", "setattr", "hasattr", "isinstance", "tuple"):
+        if node.id in ("abs", "len", "range", "min", "max", "float", "int", "enumerate", "zip", "round", "list", "slice", "getattr", "setattr", "hasattr", "isinstance", "tuple", "dict"):
             return ModuleRef("builtin:" + node.id)
         raise AnalysisError("%s:%d unknown name %s" % (func.qualname, node.lineno, node.id))
 
+    def _super_class(self, call, env, func, attr):
+        """class whose `attr` is reached by super().attr inside func (MRO of the object's class,
+        after the class that defines func)"""
+        if not func.params or func.params[0] not in env or func.cls is None:
+            raise AnalysisError("%s:%d super() outside a method" % (func.qualname, call.lineno))
+        obj = env[func.params[0]]
+        start = func.cls
+        if call.args:
+            start = self.p.resolve_class_expr(call.args[0], func.module) or start
+        ocls = getattr(obj, "cls", None) or start
+        mro = self.p.mro(ocls)
+        if start not in mro:
+            mro = self.p.mro(start)
+        for c in mro[mro.index(start) + 1:]:
+            if attr in c.methods:
+                return c
+        return None
+
     def e_Attribute(self, node, env, func, depth):
+        if _is_super_call(node.value):
+            c = self._super_class(node.value, env, func, node.attr)
+            if c is None:
+                raise AnalysisError("%s:%d super().%s not found" % (func.qualname, node.lineno, node.attr))
+            return BoundMethod(env[func.params[0]], c.methods[node.attr])
         return self._attr_of(self.eval(node.value, env, func, depth), node.attr, func, node, depth)
 
     def _attr_of(self, obj, a, func, node, depth):
@@ -996,8 +1019,13 @@ class Interp:
     def e_Call(self, node, env, func, depth):
         if isinstance(node.func, ast.Attribute) and node.func.attr == "__init__":
             ci = self.p.resolve_class_expr(node.func.value, func.module)
+            is_super = _is_super_call(node.func.value)
+            if is_super:
+                ci = self._super_class(node.func.value, env, func, "__init__")
             if ci is not None:
                 args = [self.eval(a, env, func, depth) for a in node.args]
+                if is_super:
+                    args = [env[func.params[0]]] + args
                 kwargs = {k.arg: self.eval(k.value, env, func, depth) for k in node.keywords if k.arg}
                 self.ev.base_init_calls.append((ci, args, kwargs))
                 if self.follow_base_init:
@@ -1118,6 +1146,12 @@ class Interp:
                 return list(args[0])
             if base == "tuple" and isinstance(args[0], (list, tuple)):
                 return tuple(args[0])
+            if base == "dict" and not args:
+                return dict(kwargs)
+            if base == "dict" and len(args) == 1 and isinstance(args[0], dict):
+                return dict(args[0], **kwargs)
+            if base == "dict" and len(args) == 1 and isinstance(args[0], (list, tuple)) and all(isinstance(kv, (list, tuple)) and len(kv) == 2 and isinstance(kv[0], (str, int)) for kv in args[0]):
+                return dict([(kv[0], kv[1]) for kv in args[0]], **kwargs)
             if base in ("getattr", "hasattr", "setattr") and len(args) >= 2 and isinstance(args[1], str) and isinstance(args[0], (SelfObj, ObjStub)):
                 fake = ast.copy_location(ast.Attribute(value=node.args[0], attr=args[1], ctx=ast.Load()), node)
                 if base == "setattr":
@@ -1275,6 +1309,10 @@ class Interp:
         if isinstance(a, Vec) or isinstance(b, Vec):
             raise AnalysisError("line %d: min/max of vectors" % ln)
         return self.dom.func2(fn, self.lift(a), self.lift(b))
+
+
+def _is_super_call(n):
+    return isinstance(n, ast.Call) and isinstance(n.func, ast.Name) and n.func.id == "super"
 
 
 def _is_conc(v):
